@@ -91,7 +91,7 @@ for _n in (1, 2, 3):
 
 # ---------------------------------------------------------------- qchichange: rotation about an axis (Rodrigues form)
 contract(
-    "pdb2pqr.quatfit:qchichange", "C15",
+    "pdb2pqr.quatfit:qchichange", ["C15", "C04"],
     params={"initcoords": NpVec(3), "refcoords": ListOf(NpVec(3), 2), "angle": Real},
     requires=["dot(initcoords, initcoords) > 0"],
     ensures=[
@@ -105,6 +105,7 @@ contract(
         "dot(cross(result[0], result[1]), initcoords) == dot(cross(refcoords[0], refcoords[1]), initcoords)",
     ],
     modifies=[],
+    returns=ListOf(V3(), 2),
     use=["pdb2pqr.utilities:normalize"],
     name="qchichange",
 )
